@@ -18,7 +18,7 @@ import traceback
 from . import common
 
 # ------------------------------------------------------------------------------------- classes
-GENERIC_BLOCKS = ["class", "cluster", "composite", "feature", "join", "label", "layer", "leader",
+GENERIC_BLOCKS = ["class", "cluster", "composite", "join", "label", "layer", "leader",
                   "legend", "map", "outputformat", "querymap", "reference", "scalebar", "scaletoken", "web"]
 KV_BLOCKS = ["metadata", "validation", "values", "connectionoptions"]
 
@@ -38,7 +38,8 @@ def pools(symbol_attributes):
         sat += [w.upper(), w.lower()] if w != "name" else ["name", "Name"]
     P = {
         "OPN": [c for w in GENERIC_BLOCKS for c in _cases(w)],
-        "SYM": _cases("symbol"), "STY": _cases("style"), "GRD": _cases("grid"),
+        "SYM": _cases("symbol"), "STY": _cases("style"), "GRD": _cases("grid"), "FEA": _cases("feature"),
+        "IMG": _cases("imagemode"),
         "END": ["END", "END", "end", "End"],
         "WRD": ["STATUS", "COLOR", "foo", "circle", "EXPRESSION", "x1", "size", "\xdcn\xef", "a-b", "a:b",
                 "tostring", "length", "ON", "data", "TEXT", "symbols", "NAMES", "normalx", "_u", "9lives"],
@@ -66,7 +67,7 @@ def pools(symbol_attributes):
         "UREX": ["/abc", "\\\\abc", "/", "%var"],
         "UCMT": ["/* abc", "/*", "/* a * / b"],
     }
-    P["WRD"] = [w for w in P["WRD"] if w.lower() not in symbol_attributes and w.lower() != "normal"]
+    P["WRD"] = [w for w in P["WRD"] if w.lower() not in symbol_attributes and w.lower() not in ("normal", "imagemode")]
     return P
 
 
@@ -109,6 +110,99 @@ class SoupText:
         return "".join(parts) + tail
 
 
+# ------------------------------------------------------------------------------------- layout with positions
+RICH_SEPS = [" ", " ", "\n", "\n  ", " /* c */ ", "\n/* multi\n   line */\n", " # c\n", "\n\n", "\t", " /* a\n b */ ",
+             "\n  /*\n   * licence\n   */\n  "]
+SURE_JUNK = ["@", "$", ";", "\x00", "\u20ac"]        # no terminal matches these anywhere outside strings / comments
+
+
+class Layout:
+    """joins tokens and knows where each one starts (line, column as lark counts them: lines are
+    separated by LF, columns are 1-based characters) - computed here, never by the code under test"""
+
+    def __init__(self):
+        self.parts = []
+        self.line = 1
+        self.col = 1
+        self.pos = []
+        self.ml_comment = False
+        self.ml_string = False
+        self.feat = []
+
+    def _adv(self, t):
+        n = t.count("\n")
+        if n:
+            self.line += n
+            self.col = len(t) - t.rfind("\n")
+        else:
+            self.col += len(t)
+        self.parts.append(t)
+
+    def sep(self, t):
+        if "/*" in t and "\n" in t:
+            self.ml_comment = True
+        self._adv(t)
+
+    def tok(self, t):
+        self.pos.append((self.line, self.col))
+        self.feat.append("after-multiline-ccomment" if self.ml_comment else
+                         "after-multiline-string" if self.ml_string else "plain")
+        if "\n" in t:
+            if t.startswith("/*"):
+                self.ml_comment = True
+            else:
+                self.ml_string = True
+        self._adv(t)
+
+    def text(self):
+        return "".join(self.parts)
+
+
+def rich_text(lexemes, rng, skip=None):
+    """-> (text, positions, features); skip = index of a token left out (the well-formed base)"""
+    lay = Layout()
+    prev = None
+    for i, w in enumerate(lexemes):
+        if i == skip:
+            lay.pos.append(None)
+            lay.feat.append(None)
+            rng.randrange(len(RICH_SEPS))
+            continue
+        s = RICH_SEPS[rng.randrange(len(RICH_SEPS))]
+        if prev is None:
+            s = s if s.strip() else ""
+        elif prev.startswith("#") and "\n" not in s:
+            s = "\n"
+        lay.sep(s)
+        lay.tok(w)
+        prev = w
+    return lay.text(), lay.pos, lay.feat
+
+
+def doc_text(lexs, seps, rng, skip=None):
+    """like rich_text, with the document's own separators; now and then a block comment spanning
+    lines is put between two tokens"""
+    lay = Layout()
+    prev = None
+    for i, w in enumerate(lexs):
+        inject = rng.randrange(12) == 0
+        if i == skip:
+            lay.pos.append(None)
+            lay.feat.append(None)
+            continue
+        sp = seps[i]
+        if prev is not None and not sp:
+            sp = " "
+        if prev is not None and prev.startswith("#") and "\n" not in sp:
+            sp = "\n"
+        if inject:
+            sp = sp + "/* note\n   continued */" + (sp if sp.strip() == "" and sp else " ")
+        lay.sep(sp)
+        lay.tok(w)
+        prev = w
+    return lay.text(), lay.pos, lay.feat
+
+
 # ------------------------------------------------------------------------------------- the seam
 _rec = None          # list collecting token events while a recorded parse runs
 _seam_installed = False
@@ -147,11 +241,11 @@ def install_seam():
                 vs = self.parser_state.value_stack
                 top = vs[-1] if vs else None
                 if top is None:
-                    t = {"k": "none", "ty": "", "v": ""}
+                    t = {"k": "none", "ty": "", "v": "", "lv": ""}
                 elif hasattr(top, "type") and isinstance(top, str):
-                    t = {"k": "tok", "ty": str(top.type), "v": _word(top)}
+                    t = {"k": "tok", "ty": str(top.type), "v": _word(top), "lv": _word(top).lower()}
                 else:
-                    t = {"k": "tree", "ty": type(top).__name__, "v": ""}
+                    t = {"k": "tree", "ty": type(top).__name__, "v": "", "lv": ""}
                 v = _word(token)
                 ev = {"ev": "tok", "before": str(token.type), "after": "~aborted", "v": v, "lv": v.lower(), "top": t}
             except Exception:  # noqa: BLE001  (seam must never change behaviour)
@@ -239,7 +333,7 @@ def run_text(text, opt="", record=False, limit=20.0, cpu=True):
     ev = [] if (record and _W.get("seam")) else None
     stage = "parse"
     out = {"ev": "out", "kind": "ok", "exc": "", "stage": "none", "syntax": False, "haspos": False, "line": 0, "col": 0,
-           "nlines": nlines(text), "isdict": False, "where": "", "msg": ""}
+           "nlines": nlines(text), "isdict": False, "where": "", "msg": "", "hasexp": False, "eline": 0, "ecol": 0}
     _rec = ev
     timer = signal.ITIMER_VIRTUAL if cpu else signal.ITIMER_REAL
     signal.setitimer(timer, limit)
@@ -299,9 +393,17 @@ def loop_context(ev):
     return "prev=%s" % (last["top"]["ty"] or last["top"]["k"])
 
 
-def classify(text, opt="", record=False, limit=20.0):
+def classify(text, opt="", record=False, limit=20.0, exp=None):
     """-> (outcome record, events or None).  A non-Lark exception is re-run with the seam recording
-    so that its signature can name the token context."""
+    so that its signature can name the token context.  exp = (line, col, context) of the first token
+    that cannot be shifted, when the behaviour determines it."""
+    out, ev = _classify(text, opt, record, limit)
+    if exp is not None:
+        out["hasexp"], out["eline"], out["ecol"], out["posctx"] = True, exp[0], exp[1], exp[2]
+    return out, ev
+
+
+def _classify(text, opt, record, limit):
     out, ev = run_text(text, opt, record, limit)
     if out["exc"] == "Hang":                      # confirm before calling it non-termination
         out, ev = run_text(text, opt, record, 3 * limit)
@@ -424,6 +526,9 @@ def long_shapes(n0=1000):
         "junk-run": lambda n: "MAP " + "@" * n,
         "numbers": per("SIZE 100 200\n", 3, "MAP\n", "END\n"),
         "symbolset": per('SYMBOL NAME "s" TYPE ellipse POINTS 1 1 END END\n', 10, "SYMBOLSET\n", "END\n"),
+        # many lines per token
+        "layers-sparse": per('LAYER\n NAME "l"\n TYPE POINT\n STATUS ON\nEND\n' + "\n" * max(10, 30000 // n0), 8, "MAP\n", "END\n"),
+        "attrs-sparse": per('NAME "x"\n' + "# c\n" * max(10, 30000 // n0), 2, "MAP\n", "END\n"),
     }
     return S
 
@@ -488,7 +593,7 @@ def lex_batch(job):
             bad.append((v[0], v[1], {"text": text, "opt": opt, "lex": case, "origin": "%s:%d" % (job["tag"], idx),
                                      "outcome": {k2: out[k2] for k2 in ("kind", "exc", "line", "col", "nlines", "where", "msg")}}))
         if ev is not None and idx % 4 == 0:
-            traces.append((ev[:80], {k2: out[k2] for k2 in ("ev", "kind", "stage", "syntax", "haspos", "line", "col", "nlines", "isdict")},
+            traces.append((ev[:80], {k2: out[k2] for k2 in OUT_KEYS},
                            v[0] if v else None, text if len(text) < 400 else None, opt))
     return {"n": n, "counts": counts, "bad": bad, "traces": traces, "roots_ok": set(), "cpu": time.process_time() - cpu0}
 
@@ -504,7 +609,19 @@ def time_shape(job):
         worker_init()
     name, sizes, reps, factor = job
     acc = 0.25
-    if name.startswith("lexeme:"):
+    if name.startswith("retype:"):
+        # a long multi-line input that hits one retyping pair of the spec (RetypePairs) in every block;
+        # "sparse": many (blank) lines per token
+        parts = name.split(":")
+        words = {"WRD": "circle", "NRM": "NORMAL", "IMG": "IMAGEMODE", "GRD": "GRID", "FEA": "FEATURE", "SYM": "SYMBOL",
+                 "STY": "STYLE", "NAM": "NAME", "SAT": "TYPE"}
+        unit = "  LAYER\n    %s %s\n    STATUS ON\n  END\n" % (words[parts[1]], words[parts[2]])
+        if len(parts) > 3:
+            unit += "\n" * max(10, 30000 // sizes[0])
+
+        def fn(n, unit=unit):
+            return "MAP\n" + unit * max(1, n // 7) + "END\n"
+    elif name.startswith("lexeme:"):
         _l, d, u, cl = name.split(":")
         case = {"d": d, "u": u, "closed": cl == "closed", "ctx": "value", "n": 0}
 
@@ -580,6 +697,9 @@ def _crc(s):
     return zlib.crc32(s.encode())
 
 
+OUT_KEYS = ("ev", "kind", "stage", "syntax", "haspos", "line", "col", "nlines", "isdict", "hasexp", "eline", "ecol")
+
+
 def pos_ok(out):
     """Python mirror of PosOK / OutcomeOK's position clause in spec/ParseLoop.tla (the sampled
     traces are judged by TLC itself; the check fails as machinery if the two ever disagree)"""
@@ -601,6 +721,10 @@ def verdict(out, allowed, opt, root=None, origin=""):
     if out["kind"] == "larkerror" and out["syntax"] and not pos_ok(out):
         return ("C11|nopos|%s%s" % (out["exc"], sfx),
                 "syntax error without usable position: line=%s col=%s lines=%s" % (out["line"], out["col"], out["nlines"]))
+    if out["hasexp"] and out["kind"] == "larkerror" and out["syntax"] and (out["line"], out["col"]) != (out["eline"], out["ecol"]):
+        return ("C11|pos|%s%s" % (out.get("posctx", "?"), sfx),
+                "the syntax error points at line %d column %d, the first token that cannot be shifted is at line %d column %d"
+                % (out["line"], out["col"], out["eline"], out["ecol"]))
     if out["kind"] == "ok" and not out["isdict"]:
         return ("C11|result-type|%s%s" % (out["msg"].replace(" ", "-"), sfx), "loads " + out["msg"])
     return None
@@ -643,6 +767,7 @@ def class_batch(job):
     traces = []
     roots_ok = set()
     n = 0
+    determinate = 0
     cpu0 = time.process_time()
     h = _crc(tag)
     for idx in range(job["lo"], job["hi"]):
@@ -653,8 +778,37 @@ def class_batch(job):
             soup, allowed, rtype = item.split(), default, None
         else:
             soup, allowed, rtype = item, default, None
+        bad_i = item.get("bad", 0) if isinstance(item, dict) else 0
         for rep in range(job["texts"]):
             rng = random.Random((seed * 1000003 + h) * 1000003 + idx * 7 + rep)
+            if bad_i:
+                # the behaviour determines the first token that cannot be shifted (spec: Offending)
+                lex = st.lexemes(soup, rng)
+                op = item["muts"][0]["op"]
+                if op == "junk":
+                    lex[bad_i - 1] = SURE_JUNK[rng.randrange(len(SURE_JUNK))]
+                k = rng.randrange(1 << 30)
+                text, pos, feat = rich_text(lex, random.Random(k))
+                base_text, _p, _f = rich_text(lex, random.Random(k), skip=bad_i - 1)
+                opt = _opt_for(idx + rep, 0)
+                b_out, _e = run_text(base_text, opt, False, job["limit"])
+                exp = None
+                if b_out["kind"] == "ok":        # the rest of the text is well-formed: the position is determinate
+                    exp = (pos[bad_i - 1][0], pos[bad_i - 1][1], "%s|%s" % (op, feat[bad_i - 1]))
+                    determinate += 1
+                out, ev = classify(text, opt, rep == 0, job["limit"], exp=exp)
+                n += 1
+                kk = (out["kind"], out["exc"])
+                counts[kk] = counts.get(kk, 0) + 1
+                v = verdict(out, allowed, opt, origin=tag)
+                if v is not None and len(bad) < 40:
+                    bad.append((v[0], v[1], {"text": text, "opt": opt, "classes": soup, "origin": "%s:%d" % (tag, idx),
+                                             "expected_position": exp,
+                                             "outcome": {k2: out[k2] for k2 in ("kind", "exc", "line", "col", "nlines", "where", "msg")}}))
+                if ev is not None:
+                    traces.append((ev[:80], {k2: out[k2] for k2 in OUT_KEYS}, v[0] if v else None,
+                                   text if len(text) < 400 else None, opt))
+                continue
             root = None
             if soup:
                 if rtype:
@@ -675,9 +829,10 @@ def class_batch(job):
                 bad.append((v[0], v[1], {"text": text, "opt": opt, "classes": soup, "origin": "%s:%d" % (tag, idx),
                                          "outcome": {k2: out[k2] for k2 in ("kind", "exc", "line", "col", "nlines", "where", "msg")}}))
             if ev is not None:
-                traces.append((ev[:80], {k2: out[k2] for k2 in ("ev", "kind", "stage", "syntax", "haspos", "line", "col", "nlines", "isdict")},
+                traces.append((ev[:80], {k2: out[k2] for k2 in OUT_KEYS},
                                v[0] if v else None, text if len(text) < 400 else None, opt))
-    return {"n": n, "counts": counts, "bad": bad, "traces": traces, "roots_ok": roots_ok, "cpu": time.process_time() - cpu0}
+    return {"n": n, "counts": counts, "bad": bad, "traces": traces, "roots_ok": roots_ok, "cpu": time.process_time() - cpu0,
+            "determinate": determinate}
 
 
 def window_batch(job):
@@ -714,6 +869,70 @@ def window_batch(job):
                                      "origin": "%s:%d" % (tag, idx),
                                      "outcome": {k2: out[k2] for k2 in ("kind", "exc", "line", "col", "nlines", "where", "msg")}}))
         if ev is not None:
-            traces.append((ev[:80], {k2: out[k2] for k2 in ("ev", "kind", "stage", "syntax", "haspos", "line", "col", "nlines", "isdict")},
+            traces.append((ev[:80], {k2: out[k2] for k2 in OUT_KEYS},
                            v[0] if v else None, None, opt))
     return {"n": n, "counts": counts, "bad": bad, "traces": traces, "roots_ok": set(), "cpu": time.process_time() - cpu0}
+
+
+def posw_batch(job):
+    """index-level junk / extra END on generated documents (exact tokens): DATA[tag][b] is a behaviour
+    {"s": ids (999 = junk, 998 = END after the whole document), "muts": [{"op", "bad"}]},
+    DATA[tag+":plan"][i] = (doc index into CORPUS, window start, behaviour index, layout seed)"""
+    if not _W:
+        worker_init()
+    tag = job["tag"]
+    data = DATA[tag]
+    plan = DATA[tag + ":plan"]
+    default = CFG["allowed"]
+    N = job["n"]
+    counts, bad, traces = {}, [], []
+    n = determinate = 0
+    cpu0 = time.process_time()
+    for idx in range(job["lo"], job["hi"]):
+        di, start, bi, k = plan[idx]
+        beh = data[bi]
+        name, toks, trailing = CORPUS[di]
+        op = beh["muts"][0]["op"]
+        rng = random.Random(k)
+        lexs = [t for (_s, t, _k) in toks[:start]]
+        seps = [sp for (sp, _t, _k) in toks[:start]]
+        bad_at = None
+        for x in beh["s"]:
+            if x == 999:
+                bad_at = len(lexs)
+                lexs.append(SURE_JUNK[rng.randrange(len(SURE_JUNK))])
+                seps.append(" ")
+            elif x == 998:
+                continue
+            else:
+                sp, t, _k = toks[start + x - 1]
+                lexs.append(t)
+                seps.append(sp)
+        for (sp, t, _k) in toks[start + N:]:
+            lexs.append(t)
+            seps.append(sp)
+        if op == "extraend":
+            bad_at = len(lexs)
+            lexs.append("END")
+            seps.append("\n")
+        text, pos, feat = doc_text(lexs, seps, random.Random(k + 1))
+        base_text, _p, _f = doc_text(lexs, seps, random.Random(k + 1), skip=bad_at)
+        opt = _opt_for(idx, 0)
+        b_out, _e = run_text(base_text, opt, False, job["limit"])
+        exp = None
+        if b_out["kind"] == "ok":
+            exp = (pos[bad_at][0], pos[bad_at][1], "%s|%s" % (op, feat[bad_at]))
+            determinate += 1
+        out, ev = classify(text, opt, idx % 10 == 0, job["limit"], exp=exp)
+        n += 1
+        kk = (out["kind"], out["exc"])
+        counts[kk] = counts.get(kk, 0) + 1
+        v = verdict(out, beh.get("allowed", default), opt, origin=tag)
+        if v is not None and len(bad) < 40:
+            bad.append((v[0], v[1], {"text": text, "opt": opt, "muts": beh["muts"], "doc": name, "window": [start, N],
+                                     "origin": "%s:%d" % (tag, idx), "expected_position": exp,
+                                     "outcome": {k2: out[k2] for k2 in ("kind", "exc", "line", "col", "nlines", "where", "msg")}}))
+        if ev is not None:
+            traces.append((ev[:80], {k2: out[k2] for k2 in OUT_KEYS}, v[0] if v else None, None, opt))
+    return {"n": n, "counts": counts, "bad": bad, "traces": traces, "roots_ok": set(), "cpu": time.process_time() - cpu0,
+            "determinate": determinate}
